@@ -9,7 +9,7 @@ from .dense import embed, is_fermionic, labels_of
 from .named import N, Raised
 
 
-def build_network(ctx, rng, sym, nt, pbond=0.8, maxdang=2, p_conj=0.25, label_kind="int", maxd=2, sparsity=None, all_ket_dangling=False, multi=(1, 1), maxc=None):
+def build_network(ctx, rng, sym, nt, pbond=0.8, maxdang=2, p_conj=0.25, label_kind="int", maxd=2, sparsity=None, all_ket_dangling=False, multi=(1, 1), maxc=None, dangs=None, mkindex=None):
     """-> list of N (tensor with leg names), refidx {name: index as seen on the ket side}.
     `multi`: range for the number of parallel bonds between a bonded pair."""
     sr = ctx.sr
@@ -19,16 +19,16 @@ def build_network(ctx, rng, sym, nt, pbond=0.8, maxdang=2, p_conj=0.25, label_ki
         for t2 in range(t1 + 1, nt):
             if rng.random() < pbond:
                 for m in range(rng.randint(*multi)):
-                    ix = gen.rand_index(sr, rng, sym, maxd=maxd, maxc=maxc or (2 if nt > 3 else 3))
+                    ix = mkindex() if mkindex else gen.rand_index(sr, rng, sym, maxd=maxd, maxc=maxc or (2 if nt > 3 else 3))
                     nm = f"b{t1}{t2}" + (f"_{m}" if m else "")
                     names[t1].append(nm)
                     idx[t1].append(ix)
                     names[t2].append(nm)
                     idx[t2].append(gen.conj_index(sr, ix))
     for t in range(nt):
-        for d in range(rng.randint(0, maxdang)):
+        for d in range(dangs[t] if dangs else rng.randint(0, maxdang)):
             names[t].append(f"k{t}{d}")
-            idx[t].append(gen.rand_index(sr, rng, sym, maxd=maxd, maxc=maxc or (2 if nt > 3 else 3), dual=False if all_ket_dangling else None))
+            idx[t].append(mkindex() if mkindex else gen.rand_index(sr, rng, sym, maxd=maxd, maxc=maxc or (2 if nt > 3 else 3), dual=False if all_ket_dangling else None))
     if label_kind == "int":
         # (sometimes a small range symmetric about zero: L and -L both occur)
         labs = rng.sample(range(1, 60), nt) if rng.random() < 0.7 else rng.sample(range(-5, 6), nt)
